@@ -37,6 +37,27 @@ def gen_case(rng: random.Random, tier: str) -> dict:
             if nd["kind"] == "route" and not nd.get("multi") and rng.random() < 0.25 and nd["targets"] != ["@END"]:
                 nd["fallback"] = rng.choice(nd["targets"])
                 nd["decide"]["choices"] = list(nd["decide"]["choices"]) + [None]
+    if rng.random() < 0.35:
+        # several gates sharing a target: a later single-target route gate also gets a target of an earlier gate (a node behind both)
+        top = g["nodes"]
+        gates = [i for i, nd in enumerate(top) if nd["kind"] == "route" and not nd.get("blk") and not nd.get("multi") and nd.get("decide", {}).get("op") == "mod"]
+        anyg = [i for i, nd in enumerate(top) if nd["kind"] in ("route", "ifelse") and not nd.get("blk")]
+        rng.shuffle(gates)
+        for gj in gates:
+            cands = []
+            for gi in anyg:
+                if gi == gj:
+                    continue
+                tg_i = top[gi].get("targets") or [top[gi].get("when_true"), top[gi].get("when_false")]
+                for t in tg_i:
+                    ti = next((k for k, nd in enumerate(top) if nd["name"] == t), None)
+                    if ti is not None and ti > max(gi, gj) and t not in top[gj]["targets"] and not top[ti].get("blk"):
+                        cands.append(t)
+            if cands:
+                t = rng.choice(cands)
+                top[gj]["targets"] = list(top[gj]["targets"]) + [t]
+                top[gj]["decide"]["choices"] = list(top[gj]["decide"]["choices"]) + [t, t]
+                break
     if rng.random() < 0.3:
         gen.add_substring_names(rng, g)  # one target's name is a prefix of a sibling target's name
     regate = None
